@@ -80,4 +80,830 @@ theorem normal_sum (s : Int) :
       + (s / 3600000000000 % 24) * 3600000000000 + (s / 86400000000000) * 86400000000000 = s := by
   omega
 
+/-! ## day numbers of valid dates -/
+
+variable {c : Calc}
+
+/-- the day number `LocalDate._days_since_epoch` of a (year, month, day) triple -/
+def dayNo (c : Calc) (p : Ymd) : Int := c.start p.1 + c.toMonth p.1 p.2.1 + p.2.2 - 1
+
+/-- the triple is a date the calendar accepts -/
+def Valid (c : Calc) (p : Ymd) : Prop := validate c p.1 p.2.1 p.2.2 = .ok ()
+
+/-- first and last day number of the calendar -/
+def loDay (c : Calc) : Int := c.start c.minYear
+def hiDay (c : Calc) : Int := c.start (c.maxYear + 1) - 1
+
+/-- every year of the calendar has at least 299 days (needed by the ±1-year fast path of day addition) -/
+def YearLen (c : Calc) : Prop := ∀ y, c.minYear ≤ y → y ≤ c.maxYear → 299 ≤ c.len y
+
+theorem daysOf_valid (h : WF c) (p : Ymd) (hv : Valid c p) : daysOf c p = .ok (dayNo c p) := by
+  obtain ⟨hy, hy2, _⟩ := validate_inv hv
+  unfold daysOf dayNo
+  exact daysOfYmdRaw_eq h hy hy2
+
+theorem valid_range (h : WF c) (p : Ymd) (hv : Valid c p) : loDay c ≤ dayNo c p ∧ dayNo c p ≤ hiDay c ∧
+    c.start p.1 ≤ dayNo c p ∧ dayNo c p < c.start (p.1 + 1) := by
+  obtain ⟨hy, hy2, hm, hm2, hd, hd2⟩ := validate_inv hv
+  obtain ⟨u1, u2, _⟩ := h.unsplit_ok p.1 p.2.1 p.2.2 hy hy2 hm hm2 hd hd2
+  have hr := h.recur p.1 hy hy2
+  have hs1 := start_mono h (y := c.minYear) (z := p.1) (by omega) hy (by omega)
+  have hs2 := start_mono h (y := p.1 + 1) (z := c.maxYear + 1) (by omega) (by omega) (by omega)
+  unfold dayNo loDay hiDay
+  omega
+
+theorem fromDays_valid (h : WF c) (p : Ymd) (hv : Valid c p) : fromDays c (dayNo c p) = .ok p := by
+  obtain ⟨d, h1, _, _, h4⟩ := ymd_days_ymd h p.1 p.2.1 p.2.2 hv
+  obtain ⟨hy, hy2, _⟩ := validate_inv hv
+  unfold daysOfYmd at h1
+  rw [hv] at h1
+  have h1' : daysOfYmdRaw c p.1 p.2.1 p.2.2 = .ok d := h1
+  rw [daysOfYmdRaw_eq h hy hy2] at h1'
+  have e : dayNo c p = d := by
+    unfold dayNo
+    exact Except.ok.inj h1'
+  rw [e, h4]
+
+/-- valid dates with the same day number are the same date -/
+theorem valid_inj (h : WF c) (p q : Ymd) (hp : Valid c p) (hq : Valid c q) (e : dayNo c p = dayNo c q) : p = q := by
+  have h1 := fromDays_valid h p hp
+  have h2 := fromDays_valid h q hq
+  rw [e, h2] at h1
+  exact (Except.ok.inj h1).symm
+
+/-- `_get_year_month_day(year, day_of_year)` for a day of year inside the year -/
+theorem ofYearDay_spec (h : WF c) (y doy : Int) (hy : c.minYear ≤ y) (hy2 : y ≤ c.maxYear) (h1 : 1 ≤ doy)
+    (h2 : doy ≤ c.len y) :
+    ∃ q, ofYearDay c y doy = .ok q ∧ Valid c q ∧ dayNo c q = c.start y + doy - 1 ∧
+      fromDays c (c.start y + doy - 1) = .ok q := by
+  obtain ⟨s1, s2, s3, s4, s5⟩ := h.split_ok y doy hy hy2 h1 h2
+  have hr := h.recur y hy hy2
+  refine ⟨(y, (c.split y doy).1, (c.split y doy).2), ?_, ?_, ?_, ?_⟩
+  · unfold ofYearDay; rw [splitR_ok h hy hy2 h1 h2]
+  · exact validate_ok h hy hy2 s1 s2 s3 s4
+  · unfold dayNo; dsimp only; omega
+  · have := fromDays_in_year h (c.start y + doy - 1) y hy hy2 (by omega) (by omega)
+    have e : c.start y + doy - 1 - c.start y + 1 = doy := by omega
+    rw [e] at this; exact this
+
+/-- the result of a successful day-number lookup -/
+theorem fromDays_spec (h : WF c) (d : Int) (hlo : loDay c ≤ d) (hhi : d ≤ hiDay c) :
+    ∃ q, fromDays c d = .ok q ∧ Valid c q ∧ dayNo c q = d := by
+  obtain ⟨y, m, dd, h1, h2, h3⟩ := days_ymd_days h d hlo hhi
+  refine ⟨(y, m, dd), h1, h2, ?_⟩
+  obtain ⟨hy, hy2, _⟩ := validate_inv h2
+  unfold daysOfYmd at h3
+  rw [h2] at h3
+  have h3' : daysOfYmdRaw c y m dd = .ok d := h3
+  rw [daysOfYmdRaw_eq h hy hy2] at h3'
+  unfold dayNo
+  exact Except.ok.inj h3'
+
+/-! ## `_FixedLengthDatePeriodField.add` -/
+
+/-- what it means for a date operation to be exact on the day-number line: inside the calendar the result is the
+    (valid) date with day number `target`, the same one the day-number constructor yields; outside it raises -/
+def ExactAt (c : Calc) (r : R Ymd) (target : Int) : Prop :=
+  (loDay c ≤ target ∧ target ≤ hiDay c → ∃ q, r = .ok q ∧ Valid c q ∧ dayNo c q = target ∧ fromDays c target = .ok q) ∧
+  (¬ (loDay c ≤ target ∧ target ≤ hiDay c) → ∃ e, r = .error e)
+
+theorem slowPath_exact (h : WF c) (p : Ymd) (hv : Valid c p) (k : Int) :
+    ExactAt c (slowPath c p k) (dayNo c p + k) := by
+  unfold slowPath
+  rw [daysOf_valid h p hv]
+  dsimp only
+  constructor
+  · intro hr
+    obtain ⟨q, h1, h2, h3⟩ := fromDays_spec h _ hr.1 hr.2
+    exact ⟨q, h1, h2, h3, h1⟩
+  · intro hr
+    refine ⟨.valueError, out_of_range_rejected h _ ?_⟩
+    unfold loDay hiDay at hr; omega
+
+theorem fastPath_exact (h : WF c) (hl : YearLen c) (p : Ymd) (hv : Valid c p) (k : Int) (hk : -300 < k ∧ k < 300) :
+    ExactAt c (fastPath c p k) (dayNo c p + k) := by
+  obtain ⟨y, m, d⟩ := p
+  obtain ⟨hy, hy2, hm, hm2, hd, hd2⟩ := validate_inv hv
+  obtain ⟨u1, u2, _⟩ := h.unsplit_ok y m d hy hy2 hm hm2 hd hd2
+  have hr := h.recur y hy hy2
+  have hyo := h.year_order
+  have hlo := start_mono h (y := c.minYear) (z := y) (by omega) hy (by omega)
+  have hhi := start_mono h (y := y + 1) (z := c.maxYear + 1) (by omega) (by omega) (by omega)
+  unfold fastPath
+  dsimp only at *
+  by_cases hA : 1 ≤ d + k ∧ d + k ≤ c.dim y m
+  · -- same month
+    rw [if_pos hA]
+    have hv' : Valid c (y, m, d + k) := validate_ok h hy hy2 hm hm2 hA.1 hA.2
+    have hrng := valid_range h _ hv'
+    have e : dayNo c (y, m, d + k) = dayNo c (y, m, d) + k := by unfold dayNo; dsimp only; omega
+    constructor
+    · intro _
+      refine ⟨_, rfl, hv', e, ?_⟩
+      rw [← e]; exact fromDays_valid h _ hv'
+    · intro hn; rw [← e] at hn; omega
+  · rw [if_neg hA]
+    have e0 : dayNo c (y, m, d) + k = c.start y + (c.toMonth y m + d + k) - 1 := by unfold dayNo; dsimp only; omega
+    by_cases hB : c.toMonth y m + d + k < 1
+    · rw [if_pos hB]
+      by_cases hmin : y - 1 < c.minYear
+      · -- before the first year
+        have hy0 : y = c.minYear := by omega
+        constructor
+        · intro hr'; exfalso; unfold loDay at hr'; subst hy0; omega
+        · intro _
+          cases hlen : c.lenR (y - 1) with
+          | error e => exact ⟨e, rfl⟩
+          | ok l => dsimp only; rw [if_pos hmin]; exact ⟨_, rfl⟩
+      · rw [lenR_ok h (by omega) (by omega)]
+        dsimp only
+        rw [if_neg hmin]
+        have hr1 := h.recur (y - 1) (by omega) (by omega)
+        have hl1 := hl (y - 1) (by omega) (by omega)
+        have e1 : y - 1 + 1 = y := by omega
+        rw [e1] at hr1
+        obtain ⟨q, q1, q2, q3, q4⟩ := ofYearDay_spec h (y - 1) (c.toMonth y m + d + k + c.len (y - 1)) (by omega) (by omega)
+          (by omega) (by omega)
+        have e2 : c.start (y - 1) + (c.toMonth y m + d + k + c.len (y - 1)) - 1 = dayNo c (y, m, d) + k := by omega
+        rw [e2] at q3 q4
+        have hlo1 := start_mono h (y := c.minYear) (z := y - 1) (by omega) (by omega) (by omega)
+        constructor
+        · intro _; exact ⟨q, q1, q2, q3, q4⟩
+        · intro hn; exfalso; unfold loDay hiDay at hn; omega
+    · rw [if_neg hB]
+      rw [lenR_ok h hy (by omega)]
+      dsimp only
+      by_cases hC : c.toMonth y m + d + k > c.len y
+      · rw [if_pos hC]
+        by_cases hmax : y + 1 > c.maxYear
+        · rw [if_pos hmax]
+          have hy0 : y = c.maxYear := by omega
+          constructor
+          · intro hr'; exfalso; unfold hiDay at hr'; subst hy0; omega
+          · intro _; exact ⟨_, rfl⟩
+        · rw [if_neg hmax]
+          have hr1 := h.recur (y + 1) (by omega) (by omega)
+          have hl1 := hl (y + 1) (by omega) (by omega)
+          obtain ⟨q, q1, q2, q3, q4⟩ := ofYearDay_spec h (y + 1) (c.toMonth y m + d + k - c.len y) (by omega) (by omega)
+            (by omega) (by omega)
+          have e2 : c.start (y + 1) + (c.toMonth y m + d + k - c.len y) - 1 = dayNo c (y, m, d) + k := by omega
+          rw [e2] at q3 q4
+          have hhi1 := start_mono h (y := y + 1 + 1) (z := c.maxYear + 1) (by omega) (by omega) (by omega)
+          constructor
+          · intro _; exact ⟨q, q1, q2, q3, q4⟩
+          · intro hn; exfalso; unfold loDay hiDay at hn; omega
+      · rw [if_neg hC]
+        obtain ⟨q, q1, q2, q3, q4⟩ := ofYearDay_spec h y (c.toMonth y m + d + k) hy hy2 (by omega) (by omega)
+        rw [← e0] at q3 q4
+        constructor
+        · intro _; exact ⟨q, q1, q2, q3, q4⟩
+        · intro hn; exfalso; unfold loDay hiDay at hn; omega
+
+theorem addFixed_exact (h : WF c) (hl : YearLen c) (u : Int) (p : Ymd) (hv : Valid c p) (n : Int) :
+    ExactAt c (addFixed c u p n) (dayNo c p + n * u) := by
+  unfold addFixed
+  by_cases h0 : n = 0
+  · rw [if_pos h0]
+    subst h0
+    have hr := valid_range h p hv
+    have e : dayNo c p + 0 * u = dayNo c p := by omega
+    rw [e]
+    constructor
+    · intro _; exact ⟨p, rfl, hv, rfl, fromDays_valid h p hv⟩
+    · intro hn; omega
+  · rw [if_neg h0]
+    by_cases hf : -300 < n * u ∧ n * u < 300
+    · rw [if_pos hf]; exact fastPath_exact h hl p hv _ hf
+    · rw [if_neg hf]; exact slowPath_exact h p hv _
+
+/-! ## ordering of valid dates -/
+
+theorem cmp_lt_of_dayNo_lt (h : WF c) (a b : Ymd) (ha : Valid c a) (hb : Valid c b) (hlt : dayNo c a < dayNo c b) :
+    cmpYmd c a b < 0 := by
+  have ra := valid_range h a ha
+  have rb := valid_range h b hb
+  exact cmp_neg_of_days_lt h (dayNo c a) (dayNo c b) ra.1 hlt rb.2.1 a b (fromDays_valid h a ha) (fromDays_valid h b hb)
+
+theorem cmp_self (a : Ymd) : cmpYmd c a a = 0 := by
+  unfold cmpYmd
+  cases c.ownCompare <;> simp
+
+theorem cmp_antisymm (a b : Ymd) : cmpYmd c a b < 0 → cmpYmd c b a > 0 := by
+  unfold cmpYmd
+  cases c.ownCompare
+  · simp only [Bool.false_eq_true, if_false]; omega
+  · simp only [if_true]
+    intro hlt
+    by_cases hy : a.1 - b.1 ≠ 0
+    · rw [if_pos hy] at hlt; rw [if_pos (by omega)]; omega
+    · rw [if_neg hy] at hlt; rw [if_neg (by omega)]
+      have hyy : a.1 = b.1 := by omega
+      rw [hyy] at hlt ⊢
+      by_cases hm : c.monthKey b.1 a.2.1 - c.monthKey b.1 b.2.1 ≠ 0
+      · rw [if_pos hm] at hlt; rw [if_pos (by omega)]; omega
+      · rw [if_neg hm] at hlt; rw [if_neg (by omega)]; omega
+
+/-- the calendar's comparison of two valid dates has the sign of the difference of their day numbers -/
+theorem cmp_sign (h : WF c) (a b : Ymd) (ha : Valid c a) (hb : Valid c b) :
+    (cmpYmd c a b < 0 ↔ dayNo c a < dayNo c b) ∧ (cmpYmd c a b = 0 ↔ dayNo c a = dayNo c b) ∧
+    (cmpYmd c a b > 0 ↔ dayNo c a > dayNo c b) := by
+  have t1 : dayNo c a < dayNo c b → cmpYmd c a b < 0 := cmp_lt_of_dayNo_lt h a b ha hb
+  have t2 : dayNo c a > dayNo c b → cmpYmd c a b > 0 := fun hgt => cmp_antisymm b a (cmp_lt_of_dayNo_lt h b a hb ha hgt)
+  have t3 : dayNo c a = dayNo c b → cmpYmd c a b = 0 := by
+    intro e; rw [valid_inj h a b ha hb e]; exact cmp_self b
+  refine ⟨⟨fun hc => ?_, t1⟩, ⟨fun hc => ?_, t3⟩, ⟨fun hc => ?_, t2⟩⟩
+  · by_cases h1 : dayNo c a < dayNo c b
+    · exact h1
+    · by_cases h2 : dayNo c a = dayNo c b
+      · have := t3 h2; omega
+      · have := t2 (by omega); omega
+  · by_cases h1 : dayNo c a < dayNo c b
+    · have := t1 h1; omega
+    · by_cases h2 : dayNo c a = dayNo c b
+      · exact h2
+      · have := t2 (by omega); omega
+  · by_cases h1 : dayNo c a < dayNo c b
+    · have := t1 h1; omega
+    · by_cases h2 : dayNo c a = dayNo c b
+      · have := t3 h2; omega
+      · omega
+
+/-! ## the law every date unit has to satisfy for `Period.between`, and its consequences -/
+
+/-- one unit of `__date_components_between`: the count `between s e` can be added to `s`, the result is a valid
+    date between `s` and `e` (inclusive), and the count has the sign of the direction of travel -/
+structure FieldLaw (c : Calc) (f : Field) : Prop where
+  add_zero : ∀ s, f.add s 0 = .ok s
+  law : ∀ s e, Valid c s → Valid c e → ∃ n r, f.between s e = .ok n ∧ f.add s n = .ok r ∧ Valid c r ∧
+      (dayNo c s ≤ dayNo c e → 0 ≤ n ∧ dayNo c s ≤ dayNo c r ∧ dayNo c r ≤ dayNo c e) ∧
+      (dayNo c e ≤ dayNo c s → n ≤ 0 ∧ dayNo c e ≤ dayNo c r ∧ dayNo c r ≤ dayNo c s)
+
+/-- a unit that always reaches the end (days) -/
+def FieldExact (c : Calc) (f : Field) : Prop :=
+  ∀ s e, Valid c s → Valid c e → ∃ n, f.between s e = .ok n ∧ f.add s n = .ok e
+
+/-- `LocalDate + Period(years, months, weeks, days)` -/
+def plusParts (fy fm fw fd : Field) (s : Ymd) (y m w d : Int) : R Ymd :=
+  match fy.add s y with
+  | .error x => .error x
+  | .ok s1 =>
+    match fm.add s1 m with
+    | .error x => .error x
+    | .ok s2 =>
+      match fw.add s2 w with
+      | .error x => .error x
+      | .ok s3 => fd.add s3 d
+
+theorem stepField_spec (f : Field) (hf : FieldLaw c f) (on : Bool) (s e : Ymd) (hs : Valid c s) (he : Valid c e) :
+    ∃ n r, stepField f on s e = .ok (n, r) ∧ f.add s n = .ok r ∧ Valid c r ∧ (on = false → n = 0) ∧
+      (on = true → f.between s e = .ok n) ∧
+      (dayNo c s ≤ dayNo c e → 0 ≤ n ∧ dayNo c s ≤ dayNo c r ∧ dayNo c r ≤ dayNo c e) ∧
+      (dayNo c e ≤ dayNo c s → n ≤ 0 ∧ dayNo c e ≤ dayNo c r ∧ dayNo c r ≤ dayNo c s) := by
+  cases on
+  · refine ⟨0, s, rfl, hf.add_zero s, hs, fun _ => rfl, (fun hc => by cases hc), ?_, ?_⟩ <;> intro _ <;> omega
+  · obtain ⟨n, r, h1, h2, h3, h4, h5⟩ := hf.law s e hs he
+    refine ⟨n, r, ?_, h2, h3, (fun hc => by cases hc), (fun _ => h1), h4, h5⟩
+    unfold stepField
+    simp only [Bool.not_true, Bool.false_eq_true, if_false, h1, h2]
+
+/-- the whole decomposition: every intermediate date is valid and lies between start and end, the counts have one
+    sign, counts of units not asked for are zero, and adding the counts to the start in turn gives `rest` -/
+theorem dateComponents_spec (fy fm fw fd : Field) (hy : FieldLaw c fy) (hm : FieldLaw c fm) (hw : FieldLaw c fw)
+    (hd : FieldLaw c fd) (mask : Nat) (s e : Ymd) (hs : Valid c s) (he : Valid c e) :
+    ∃ p, dateComponents fy fm fw fd mask s e = .ok p ∧ plusParts fy fm fw fd s p.years p.months p.weeks p.days = .ok p.rest ∧
+      Valid c p.rest ∧
+      (bit mask 0 = false → p.years = 0) ∧ (bit mask 1 = false → p.months = 0) ∧ (bit mask 2 = false → p.weeks = 0) ∧
+      (bit mask 3 = false → p.days = 0) ∧
+      (dayNo c s ≤ dayNo c e → 0 ≤ p.years ∧ 0 ≤ p.months ∧ 0 ≤ p.weeks ∧ 0 ≤ p.days ∧
+        dayNo c s ≤ dayNo c p.rest ∧ dayNo c p.rest ≤ dayNo c e) ∧
+      (dayNo c e ≤ dayNo c s → p.years ≤ 0 ∧ p.months ≤ 0 ∧ p.weeks ≤ 0 ∧ p.days ≤ 0 ∧
+        dayNo c e ≤ dayNo c p.rest ∧ dayNo c p.rest ≤ dayNo c s) := by
+  obtain ⟨n1, r1, a1, b1, v1, z1, _, f1, g1⟩ := stepField_spec fy hy (bit mask 0) s e hs he
+  obtain ⟨n2, r2, a2, b2, v2, z2, _, f2, g2⟩ := stepField_spec fm hm (bit mask 1) r1 e v1 he
+  obtain ⟨n3, r3, a3, b3, v3, z3, _, f3, g3⟩ := stepField_spec fw hw (bit mask 2) r2 e v2 he
+  obtain ⟨n4, r4, a4, b4, v4, z4, _, f4, g4⟩ := stepField_spec fd hd (bit mask 3) r3 e v3 he
+  refine ⟨⟨r4, n1, n2, n3, n4⟩, ?_, ?_, v4, z1, z2, z3, z4, ?_, ?_⟩
+  · unfold dateComponents; simp only [a1, a2, a3, a4]
+  · unfold plusParts; simp only [b1, b2, b3, b4]
+  · intro hle
+    obtain ⟨p1, p2, p3⟩ := f1 hle
+    obtain ⟨q1, q2, q3⟩ := f2 p3
+    obtain ⟨t1, t2, t3⟩ := f3 q3
+    obtain ⟨w1, w2, w3⟩ := f4 t3
+    dsimp only
+    omega
+  · intro hle
+    obtain ⟨p1, p2, p3⟩ := g1 hle
+    obtain ⟨q1, q2, q3⟩ := g2 p2
+    obtain ⟨t1, t2, t3⟩ := g3 q2
+    obtain ⟨w1, w2, w3⟩ := g4 t2
+    dsimp only
+    omega
+
+/-- with an exact last unit switched on the decomposition ends at `e` -/
+theorem dateComponents_hits_end (fy fm fw fd : Field) (hy : FieldLaw c fy) (hm : FieldLaw c fm) (hw : FieldLaw c fw)
+    (_hd : FieldLaw c fd) (hx : FieldExact c fd) (mask : Nat) (hbit : bit mask 3 = true) (s e : Ymd) (hs : Valid c s)
+    (he : Valid c e) (p : DateParts) (hp : dateComponents fy fm fw fd mask s e = .ok p) : p.rest = e := by
+  obtain ⟨n1, r1, a1, b1, v1, z1, _, f1, g1⟩ := stepField_spec fy hy (bit mask 0) s e hs he
+  obtain ⟨n2, r2, a2, b2, v2, z2, _, f2, g2⟩ := stepField_spec fm hm (bit mask 1) r1 e v1 he
+  obtain ⟨n3, r3, a3, b3, v3, z3, _, f3, g3⟩ := stepField_spec fw hw (bit mask 2) r2 e v2 he
+  obtain ⟨n4, x1, x2⟩ := hx r3 e v3 he
+  unfold dateComponents at hp
+  simp only [a1, a2, a3] at hp
+  unfold stepField at hp
+  simp only [hbit, Bool.not_true, Bool.false_eq_true, if_false, x1, x2] at hp
+  cases hp
+  rfl
+
+/-! ## the day and week units satisfy the law in every well-formed calendar -/
+
+theorem daysBetween_valid (h : WF c) (s e : Ymd) (hs : Valid c s) (he : Valid c e) :
+    daysBetween c s e = .ok (dayNo c e - dayNo c s) := by
+  unfold daysBetween
+  by_cases heq : s = e
+  · rw [if_pos heq, heq]; congr 1; omega
+  · rw [if_neg heq, daysOf_valid h s hs, daysOf_valid h e he]
+
+theorem fixedBetween_valid (h : WF c) (u : Int) (s e : Ymd) (hs : Valid c s) (he : Valid c e) :
+    fixedBetween c u s e = .ok (Int.tdiv (dayNo c e - dayNo c s) u) := by
+  unfold fixedBetween
+  rw [daysBetween_valid h s e hs he]
+
+theorem fixedField_law (h : WF c) (hl : YearLen c) (u : Int) (hu : u = 1 ∨ u = 7) :
+    FieldLaw c ⟨addFixed c u, fixedBetween c u⟩ where
+  add_zero := by intro s; show addFixed c u s 0 = .ok s; unfold addFixed; rw [if_pos rfl]
+  law := by
+    intro s e hs he
+    have rs := valid_range h s hs
+    have re := valid_range h e he
+    have hb : fixedBetween c u s e = .ok (Int.tdiv (dayNo c e - dayNo c s) u) := fixedBetween_valid h u s e hs he
+    have hex := addFixed_exact h hl u s hs (Int.tdiv (dayNo c e - dayNo c s) u)
+    have key : (dayNo c s ≤ dayNo c e → 0 ≤ Int.tdiv (dayNo c e - dayNo c s) u ∧
+          dayNo c s ≤ dayNo c s + Int.tdiv (dayNo c e - dayNo c s) u * u ∧
+          dayNo c s + Int.tdiv (dayNo c e - dayNo c s) u * u ≤ dayNo c e) ∧
+        (dayNo c e ≤ dayNo c s → Int.tdiv (dayNo c e - dayNo c s) u ≤ 0 ∧
+          dayNo c e ≤ dayNo c s + Int.tdiv (dayNo c e - dayNo c s) u * u ∧
+          dayNo c s + Int.tdiv (dayNo c e - dayNo c s) u * u ≤ dayNo c s) := by
+      rcases hu with rfl | rfl <;>
+      · simp (disch := decide) only [tdiv_pos]
+        constructor <;> intro hle <;> split <;> omega
+    obtain ⟨q, q1, q2, q3, _⟩ := hex.1 (by
+      by_cases hle : dayNo c s ≤ dayNo c e
+      · have := key.1 hle; omega
+      · have := key.2 (by omega); omega)
+    refine ⟨_, q, hb, q1, q2, ?_, ?_⟩
+    · intro hle; rw [q3]; exact key.1 hle
+    · intro hle; rw [q3]; exact key.2 hle
+
+theorem daysField_exact (h : WF c) (hl : YearLen c) : FieldExact c ⟨addFixed c 1, fixedBetween c 1⟩ := by
+  intro s e hs he
+  have re := valid_range h e he
+  refine ⟨_, fixedBetween_valid h 1 s e hs he, ?_⟩
+  have hex := addFixed_exact h hl 1 s hs (Int.tdiv (dayNo c e - dayNo c s) 1)
+  have e1 : dayNo c s + Int.tdiv (dayNo c e - dayNo c s) 1 * 1 = dayNo c e := by
+    simp (disch := decide) only [tdiv_pos]; split <;> omega
+  rw [e1] at hex
+  obtain ⟨q, q1, q2, q3, _⟩ := hex.1 ⟨re.1, re.2.1⟩
+  show addFixed c 1 s _ = .ok e
+  rw [q1, valid_inj h q e q2 he q3]
+
+/-! ## units counted on a coarse key (year, or month index): the "difference, corrected by one" scheme -/
+
+/-- `K` is the coarse position a unit counts on (the year for years, `year·M + month − 1` for months).  If dates with
+    a smaller key are earlier, adding `n` units moves the key by exactly `n` (whenever the target key lies between
+    keys of valid dates) and `between` is the key difference corrected by one as the code does, then the unit
+    satisfies `FieldLaw`. -/
+theorem coarse_law (h : WF c) (f : Field) (K : Ymd → Int)
+    (hK : ∀ a b, Valid c a → Valid c b → K a < K b → dayNo c a < dayNo c b)
+    (hzero : ∀ s, f.add s 0 = .ok s)
+    (hadd : ∀ s a b n, Valid c s → Valid c a → Valid c b → K a ≤ K s + n → K s + n ≤ K b →
+      ∃ r, f.add s n = .ok r ∧ Valid c r ∧ K r = K s + n)
+    (hbetween : ∀ s e simple, Valid c s → Valid c e → f.add s (K e - K s) = .ok simple →
+      f.between s e = .ok (correctByOne c s e simple (K e - K s))) :
+    FieldLaw c f where
+  add_zero := hzero
+  law := by
+    intro s e hs he
+    -- contrapositive of hK
+    have hK' : ∀ a b, Valid c a → Valid c b → dayNo c a ≤ dayNo c b → K a ≤ K b := by
+      intro a b ha hb hle
+      by_cases hlt : K b < K a
+      · have := hK b a hb ha hlt; omega
+      · omega
+    obtain ⟨simple, a1, v1, k1⟩ := hadd s e e (K e - K s) hs he he (by omega) (by omega)
+    have hb := hbetween s e simple hs he a1
+    have cs := cmp_sign h s e hs he
+    have cq := cmp_sign h simple e v1 he
+    have k1' : K simple = K e := by omega
+    unfold correctByOne at hb
+    by_cases hle : dayNo c s ≤ dayNo c e
+    · have hk := hK' s e hs he hle
+      rw [if_pos (by have := cs.1; have := cs.2.1; have := cs.2.2; omega)] at hb
+      by_cases hq : cmpYmd c simple e ≤ 0
+      · rw [if_pos hq] at hb
+        have hqd : dayNo c simple ≤ dayNo c e := by have := cq.2.2; omega
+        have hsr : dayNo c s ≤ dayNo c simple := by
+          by_cases h0 : K e - K s = 0
+          · rw [h0, hzero s] at a1; cases a1; omega
+          · have := hK s simple hs v1 (by omega); omega
+        refine ⟨_, simple, hb, a1, v1, fun _ => ⟨by omega, hsr, hqd⟩, ?_⟩
+        intro hge
+        have e2 : dayNo c e = dayNo c s := by omega
+        have e3 := valid_inj h e s he hs e2
+        subst e3
+        have h0 : K e - K e = 0 := by omega
+        rw [h0, hzero e] at a1; cases a1
+        exact ⟨by omega, by omega, by omega⟩
+      · rw [if_neg hq] at hb
+        have hqd : dayNo c simple > dayNo c e := by have := cq.2.2; omega
+        have hne : K e - K s ≠ 0 := by
+          intro h0; rw [h0, hzero s] at a1; cases a1; omega
+        obtain ⟨r, a2, v2, k2⟩ := hadd s s e (K e - K s - 1) hs hs he (by omega) (by omega)
+        have hre : dayNo c r < dayNo c e := hK r e v2 he (by omega)
+        have hsr : dayNo c s ≤ dayNo c r := by
+          by_cases h0 : K e - K s - 1 = 0
+          · rw [h0, hzero s] at a2; cases a2; omega
+          · have := hK s r hs v2 (by omega); omega
+        refine ⟨_, r, hb, a2, v2, fun _ => ⟨by omega, hsr, by omega⟩, ?_⟩
+        intro hge; exfalso; omega
+    · have hlt : dayNo c e < dayNo c s := by omega
+      have hk := hK' e s he hs (by omega)
+      rw [if_neg (by have := cs.2.2; omega)] at hb
+      by_cases hq : cmpYmd c simple e ≥ 0
+      · rw [if_pos hq] at hb
+        have hqd : dayNo c e ≤ dayNo c simple := by have := cq.1; omega
+        have hsr : dayNo c simple ≤ dayNo c s := by
+          by_cases h0 : K e - K s = 0
+          · rw [h0, hzero s] at a1; cases a1; omega
+          · have := hK simple s v1 hs (by omega); omega
+        exact ⟨_, simple, hb, a1, v1, fun hh => by omega, fun _ => ⟨by omega, hqd, hsr⟩⟩
+      · rw [if_neg hq] at hb
+        have hqd : dayNo c simple < dayNo c e := by have := cq.1; omega
+        have hne : K e - K s ≠ 0 := by
+          intro h0; rw [h0, hzero s] at a1; cases a1; omega
+        obtain ⟨r, a2, v2, k2⟩ := hadd s e s (K e - K s + 1) hs he hs (by omega) (by omega)
+        have hre : dayNo c e < dayNo c r := hK e r he v2 (by omega)
+        have hsr : dayNo c r ≤ dayNo c s := by
+          by_cases h0 : K e - K s + 1 = 0
+          · rw [h0, hzero s] at a2; cases a2; omega
+          · have := hK r s v2 hs (by omega); omega
+        exact ⟨_, r, hb, a2, v2, fun hh => by omega, fun _ => ⟨by omega, by omega, hsr⟩⟩
+
+/-- the hypotheses of `coarse_law`, bundled -/
+structure CoarseUnit (c : Calc) (f : Field) (K : Ymd → Int) : Prop where
+  key_mono : ∀ a b, Valid c a → Valid c b → K a < K b → dayNo c a < dayNo c b
+  add_zero : ∀ s, f.add s 0 = .ok s
+  add_ok : ∀ s a b n, Valid c s → Valid c a → Valid c b → K a ≤ K s + n → K s + n ≤ K b →
+    ∃ r, f.add s n = .ok r ∧ Valid c r ∧ K r = K s + n
+  /-- whatever the addition returns is a valid date at the expected key -/
+  add_inv : ∀ s n r, Valid c s → f.add s n = .ok r → Valid c r ∧ K r = K s + n
+  between_eq : ∀ s e simple, Valid c s → Valid c e → f.add s (K e - K s) = .ok simple →
+    f.between s e = .ok (correctByOne c s e simple (K e - K s))
+
+theorem CoarseUnit.toLaw {f : Field} {K : Ymd → Int} (h : WF c) (u : CoarseUnit c f K) : FieldLaw c f :=
+  coarse_law h f K u.key_mono u.add_zero u.add_ok u.between_eq
+
+/-! ## the regular family (`_RegularYearMonthDayCalculator`) -/
+
+/-- the year and month `_RegularYearMonthDayCalculator._add_months` computes are floor quotient and remainder of the
+    zero-based month index `m - 1 + n` by the number of months per year -/
+theorem regularTarget_eq (M y m n : Int) (hM : M = 12 ∨ M = 13) :
+    regularTarget M y m n (Int.tdiv (m - 1 + n) M) = (y + (m - 1 + n) / M, (m - 1 + n) % M + 1) := by
+  rcases hM with rfl | rfl <;>
+  · unfold regularTarget
+    simp (disch := decide) only [tdiv_pos, fmod_pos]
+    by_cases h : m - 1 + n ≥ 0
+    · simp only [h, if_true]
+    · simp only [h, if_false]
+      repeat' split
+      all_goals (refine Prod.ext ?_ ?_ <;> dsimp only <;> omega)
+
+theorem addMonthsRegular_spec (c : Calc) (M : Int) (hM : M = 12 ∨ M = 13) (y m d n : Int) (hn : n ≠ 0)
+    (hb : -decBound < m - 1 + n ∧ m - 1 + n < decBound) :
+    ∃ Y Mo, Y * M + (Mo - 1) = y * M + (m - 1) + n ∧ 1 ≤ Mo ∧ Mo ≤ M ∧
+      (c.minYear ≤ Y ∧ Y ≤ c.maxYear → addMonthsRegular c M (y, m, d) n = .ok (Y, Mo, min d (c.dim Y Mo))) ∧
+      (¬ (c.minYear ≤ Y ∧ Y ≤ c.maxYear) → addMonthsRegular c M (y, m, d) n = .error .overflowError) := by
+  refine ⟨y + (m - 1 + n) / M, (m - 1 + n) % M + 1, ?_, ?_, ?_, ?_, ?_⟩
+  · rcases hM with rfl | rfl <;> omega
+  · rcases hM with rfl | rfl <;> omega
+  · rcases hM with rfl | rfl <;> omega
+  all_goals
+    intro hr
+    unfold addMonthsRegular
+    rw [if_neg hn]
+    dsimp only
+    rw [pyTdiv_ok _ M (by rcases hM with rfl | rfl <;> decide) hb.1 hb.2
+      (by rcases hM with rfl | rfl <;> decide) (by rcases hM with rfl | rfl <;> decide)]
+    dsimp only
+    rw [regularTarget_eq M y m n hM]
+    unfold rangeOrOverflow
+    dsimp only
+  · rw [if_neg (by omega)]
+  · rw [if_pos (by omega)]
+
+
+/-- a calendar of the regular family: the same number of months (12 or 13) in every year, packed comparison -/
+structure RegularCal (k : Cal) (M : Int) : Prop where
+  fam : k.fam = .regular
+  wf : WF k.c
+  mM : M = 12 ∨ M = 13
+  months : ∀ y, k.c.months y = M
+  plain : k.c.ownCompare = false
+
+theorem dayNo_lt_of_year_lt (h : WF c) (a b : Ymd) (ha : Valid c a) (hb : Valid c b) (hlt : a.1 < b.1) :
+    dayNo c a < dayNo c b := by
+  have ra := valid_range h a ha
+  have rb := valid_range h b hb
+  obtain ⟨hy, hy2, _⟩ := validate_inv ha
+  obtain ⟨hz, hz2, _⟩ := validate_inv hb
+  have := start_mono h (y := a.1 + 1) (z := b.1) (by omega) (by omega) (by omega)
+  omega
+
+theorem dayNo_lt_of_month_lt (h : WF c) (hp : c.ownCompare = false) (a b : Ymd) (ha : Valid c a) (hb : Valid c b)
+    (hy : a.1 = b.1) (hlt : a.2.1 < b.2.1) : dayNo c a < dayNo c b := by
+  obtain ⟨y1, y2, m1, m2, d1, d2⟩ := validate_inv ha
+  obtain ⟨z1, z2, n1, n2, e1, e2⟩ := validate_inv hb
+  rw [← hy] at n2 e2
+  have hk1 := h.plain_key hp a.1 a.2.1 y1 y2 m1 m2
+  have hk2 := h.plain_key hp a.1 b.2.1 y1 y2 n1 n2
+  have := h.month_order a.1 a.2.1 b.2.1 y1 y2 m1 m2 n1 n2 (by rw [hk1, hk2]; exact hlt)
+  unfold dayNo
+  rw [← hy]
+  omega
+
+/-- validity of what `_set_year` returns in the regular family -/
+theorem setYearRegular_valid (k : Cal) (M : Int) (hk : RegularCal k M) (s : Ymd) (hs : Valid k.c s) (Y : Int)
+    (hY : k.c.minYear ≤ Y ∧ Y ≤ k.c.maxYear) : Valid k.c (setYearRegular k.c s Y) := by
+  have h := hk.wf
+  obtain ⟨sy, sy2, sm, sm2, sd, sd2⟩ := validate_inv hs
+  rw [hk.months] at sm2
+  have hp := h.pack_day Y s.2.1 hY.1 hY.2 sm (by rw [hk.months]; exact sm2)
+  unfold setYearRegular Valid
+  dsimp only
+  exact validate_ok h hY.1 hY.2 sm (by rw [hk.months]; exact sm2) (Int.le_min.2 ⟨sd, hp.1⟩) (Int.min_le_right _ _)
+
+theorem yearsField_unit (k : Cal) (M : Int) (hk : RegularCal k M) : CoarseUnit k.c (yearsField k) (fun p => p.1) := by
+  have h := hk.wf
+  refine ⟨fun a b ha hb hlt => dayNo_lt_of_year_lt h a b ha hb hlt, ?_, ?_, ?_, ?_⟩
+  · intro s; show addYears k s 0 = .ok s; unfold addYears; rw [if_pos rfl]
+  · intro s a b n hs ha hb h1 h2
+    obtain ⟨ay, _, _⟩ := validate_inv ha
+    obtain ⟨_, by2, _⟩ := validate_inv hb
+    obtain ⟨sy, sy2, sm, sm2, sd, sd2⟩ := validate_inv hs
+    show ∃ r, addYears k s n = .ok r ∧ Valid k.c r ∧ r.1 = s.1 + n
+    unfold addYears
+    by_cases h0 : n = 0
+    · rw [if_pos h0]; exact ⟨s, rfl, hs, by omega⟩
+    · rw [if_neg h0]
+      unfold checkRange
+      rw [if_neg (by omega)]
+      dsimp only
+      unfold setYear
+      rw [hk.fam]
+      dsimp only
+      refine ⟨_, rfl, ?_, rfl⟩
+      unfold setYearRegular Valid
+      dsimp only
+      rw [hk.months] at sm2
+      have hp := h.pack_day (s.1 + n) s.2.1 (by omega) (by omega) sm (by rw [hk.months]; exact sm2)
+      exact validate_ok h (by omega) (by omega) sm (by rw [hk.months]; exact sm2) (by omega) (by omega)
+  · intro s n r hs ha
+    have ha' : addYears k s n = .ok r := ha
+    obtain ⟨sy, sy2, _⟩ := validate_inv hs
+    unfold addYears at ha'
+    by_cases h0 : n = 0
+    · rw [if_pos h0] at ha'; cases ha'; exact ⟨hs, by omega⟩
+    · rw [if_neg h0] at ha'
+      unfold checkRange at ha'
+      by_cases hr : n < k.c.minYear - s.1 ∨ n > k.c.maxYear - s.1
+      · rw [if_pos hr] at ha'; cases ha'
+      · rw [if_neg hr] at ha'
+        dsimp only at ha'
+        unfold setYear at ha'
+        rw [hk.fam] at ha'
+        dsimp only at ha'
+        cases ha'
+        exact ⟨setYearRegular_valid k M hk s hs _ (by omega), rfl⟩
+  · intro s e simple _ _ ha
+    show yearsBetween k s e = _
+    unfold yearsBetween
+    dsimp only
+    have ha' : addYears k s (e.1 - s.1) = .ok simple := ha
+    rw [ha']
+
+theorem yearsField_law (k : Cal) (M : Int) (hk : RegularCal k M) : FieldLaw k.c (yearsField k) :=
+  (yearsField_unit k M hk).toLaw hk.wf
+
+theorem pyTdiv_ok_inv (x y q : Int) (hq : pyTdiv x y = .ok q) : -decBound < x ∧ x < decBound := by
+  unfold pyTdiv at hq
+  by_cases hy : y = 0
+  · rw [if_pos hy] at hq; split at hq <;> cases hq
+  · rw [if_neg hy] at hq
+    by_cases hd : inDecDomain x y = true
+    · unfold inDecDomain at hd
+      simp only [Bool.and_eq_true, decide_eq_true_eq] at hd
+      omega
+    · rw [if_neg hd] at hq; cases hq
+
+theorem monthsField_unit (k : Cal) (M : Int) (hk : RegularCal k M) :
+    CoarseUnit k.c (monthsField k) (fun p => p.1 * M + p.2.1 - 1) := by
+  have h := hk.wf
+  have hM := hk.mM
+  have hpy := h.pack_year
+  have hadd_eq : ∀ p n, addMonths k p n = addMonthsRegular k.c M p n := by
+    intro p n; unfold addMonths; rw [hk.fam]; dsimp only; rw [hk.months]
+  refine ⟨?_, ?_, ?_, ?_, ?_⟩
+  · intro a b ha hb hlt
+    obtain ⟨_, _, m1, m2, _⟩ := validate_inv ha
+    obtain ⟨_, _, n1, n2, _⟩ := validate_inv hb
+    rw [hk.months] at m2 n2
+    by_cases hy : a.1 < b.1
+    · exact dayNo_lt_of_year_lt h a b ha hb hy
+    · have hyy : a.1 = b.1 := by rcases hM with rfl | rfl <;> omega
+      exact dayNo_lt_of_month_lt h hk.plain a b ha hb hyy (by rw [hyy] at hlt; omega)
+  · intro s; show addMonths k s 0 = .ok s; rw [hadd_eq]; unfold addMonthsRegular; rw [if_pos rfl]
+  · intro s a b n hs ha hb h1 h2
+    obtain ⟨ay, ay2, am, am2, _⟩ := validate_inv ha
+    obtain ⟨by1, by2, bm, bm2, _⟩ := validate_inv hb
+    obtain ⟨sy, sy2, sm, sm2, sd, sd2⟩ := validate_inv hs
+    rw [hk.months] at am2 bm2 sm2
+    show ∃ r, addMonths k s n = .ok r ∧ Valid k.c r ∧ r.1 * M + r.2.1 - 1 = s.1 * M + s.2.1 - 1 + n
+    rw [hadd_eq]
+    by_cases h0 : n = 0
+    · unfold addMonthsRegular; rw [if_pos h0]; exact ⟨s, rfl, hs, by omega⟩
+    · have hbnd : -decBound < s.2.1 - 1 + n ∧ s.2.1 - 1 + n < decBound := by
+        unfold decBound; rcases hM with rfl | rfl <;> omega
+      obtain ⟨Y, Mo, e1, e2, e3, e4, _⟩ := addMonthsRegular_spec k.c M hM s.1 s.2.1 s.2.2 n h0 hbnd
+      have hY : k.c.minYear ≤ Y ∧ Y ≤ k.c.maxYear := by rcases hM with rfl | rfl <;> omega
+      have hp := h.pack_day Y Mo hY.1 hY.2 e2 (by rw [hk.months]; exact e3)
+      refine ⟨_, e4 hY, validate_ok h hY.1 hY.2 e2 (by rw [hk.months]; exact e3) (Int.le_min.2 ⟨sd, hp.1⟩)
+        (Int.min_le_right _ _), ?_⟩
+      dsimp only; omega
+  · intro s n r hs ha
+    have ha' : addMonths k s n = .ok r := ha
+    rw [hadd_eq] at ha'
+    obtain ⟨sy, sy2, sm, sm2, sd, sd2⟩ := validate_inv hs
+    rw [hk.months] at sm2
+    by_cases h0 : n = 0
+    · unfold addMonthsRegular at ha'; rw [if_pos h0] at ha'; cases ha'; exact ⟨hs, by omega⟩
+    · have hbnd : -decBound < s.2.1 - 1 + n ∧ s.2.1 - 1 + n < decBound := by
+        have hu := ha'
+        unfold addMonthsRegular at hu
+        rw [if_neg h0] at hu
+        cases hq : pyTdiv (s.2.1 - 1 + n) M with
+        | error x => rw [hq] at hu; cases hu
+        | ok q => exact pyTdiv_ok_inv _ _ _ hq
+      obtain ⟨Y, Mo, e1, e2, e3, e4, e5⟩ := addMonthsRegular_spec k.c M hM s.1 s.2.1 s.2.2 n h0 hbnd
+      by_cases hY : k.c.minYear ≤ Y ∧ Y ≤ k.c.maxYear
+      · have hp := h.pack_day Y Mo hY.1 hY.2 e2 (by rw [hk.months]; exact e3)
+        have e6 := e4 hY
+        have e7 : addMonthsRegular k.c M s n = addMonthsRegular k.c M (s.1, s.2.1, s.2.2) n := rfl
+        rw [e7, e6] at ha'
+        cases ha'
+        refine ⟨validate_ok h hY.1 hY.2 e2 (by rw [hk.months]; exact e3) (Int.le_min.2 ⟨sd, hp.1⟩) (Int.min_le_right _ _), ?_⟩
+        dsimp only; omega
+      · have e6 := e5 hY
+        have e7 : addMonthsRegular k.c M s n = addMonthsRegular k.c M (s.1, s.2.1, s.2.2) n := rfl
+        rw [e7, e6] at ha'; cases ha'
+  · intro s e simple _ _ ha
+    show monthsBetween k s e = _
+    unfold monthsBetween
+    rw [hk.fam]
+    dsimp only
+    rw [hk.months]
+    unfold monthsBetweenRegular
+    dsimp only
+    have e1 : (e.1 - s.1) * M + e.2.1 - s.2.1 = e.1 * M + e.2.1 - 1 - (s.1 * M + s.2.1 - 1) := by
+      rcases hM with rfl | rfl <;> omega
+    have ha' : addMonthsRegular k.c M s (e.1 * M + e.2.1 - 1 - (s.1 * M + s.2.1 - 1)) = .ok simple := by
+      rw [← hadd_eq]; exact ha
+    rw [e1, ha']
+
+theorem monthsField_law (k : Cal) (M : Int) (hk : RegularCal k M) : FieldLaw k.c (monthsField k) :=
+  (monthsField_unit k M hk).toLaw hk.wf
+
+/-! ## Hebrew month arithmetic: the 235-month cycle -/
+
+/-- months before civil year `y` in the Hebrew calendar (19-year cycle of 235 months) -/
+def hebBefore (y : Int) : Int := 12 * y - 13 + (7 * y + 13) / 19
+
+theorem monthsIn_eq (y : Int) : Hebrew.monthsIn y = if (7 * y + 1) % 19 < 7 then 13 else 12 := by
+  unfold Hebrew.monthsIn Heb.isLeap
+  simp (disch := decide) only [fmod_pos]
+  rw [Int.mul_comm y 7]
+  by_cases h : (7 * y + 1) % 19 < 7 <;> simp [h]
+
+theorem heb_recur (y : Int) : hebBefore (y + 1) = hebBefore y + Hebrew.monthsIn y := by
+  rw [monthsIn_eq]; unfold hebBefore
+  have e1 : 7 * (y + 1) + 13 = 7 * y + 20 := by omega
+  rw [e1]
+  generalize 7 * y = z
+  split <;> omega
+
+theorem heb_cycle (y q : Int) : hebBefore (y + q * 19) = hebBefore y + 235 * q ∧ Hebrew.monthsIn (y + q * 19) = Hebrew.monthsIn y := by
+  rw [monthsIn_eq, monthsIn_eq]; unfold hebBefore
+  constructor
+  · have e1 : 7 * (y + q * 19) + 13 = 7 * y + 13 + 19 * (7 * q) := by omega
+    rw [e1, Int.add_mul_ediv_left _ _ (by decide)]; omega
+  · have : (7 * (y + q * 19) + 1) % 19 = (7 * y + 1) % 19 := by omega
+    rw [this]
+
+theorem fwdLoop_spec : ∀ (fuel : Nat) (ms yr : Int), 0 ≤ ms → ms < 12 * fuel →
+    ∃ ms' yr', Hebrew.fwdLoop fuel ms yr = .ok (ms', yr') ∧ 0 ≤ ms' ∧ ms' < Hebrew.monthsIn yr' ∧ hebBefore yr' + ms' = hebBefore yr + ms := by
+  intro fuel
+  induction fuel with
+  | zero => intro ms yr h1 h2; omega
+  | succ f ih =>
+    intro ms yr h1 h2
+    unfold Hebrew.fwdLoop
+    have hm := monthsIn_eq yr
+    by_cases hc : ms ≥ Hebrew.monthsIn yr
+    · rw [if_pos hc]
+      obtain ⟨a, b, e1, e2, e3, e4⟩ := ih (ms - Hebrew.monthsIn yr) (yr + 1) (by omega) (by split at hm <;> omega)
+      refine ⟨a, b, e1, e2, e3, ?_⟩
+      rw [e4, heb_recur]; omega
+    · rw [if_neg hc]; exact ⟨ms, yr, rfl, h1, by omega, rfl⟩
+
+theorem backLoop_spec : ∀ (fuel : Nat) (ms yr : Int), ms ≤ 0 → -(12 * (fuel : Int)) < ms →
+    ∃ ms' yr', Hebrew.backLoop fuel ms yr = .ok (ms', yr') ∧ ms' ≤ 0 ∧ 0 < ms' + Hebrew.monthsIn yr' ∧
+      hebBefore (yr' + 1) + ms' = hebBefore (yr + 1) + ms := by
+  intro fuel
+  induction fuel with
+  | zero => intro ms yr h1 h2; omega
+  | succ f ih =>
+    intro ms yr h1 h2
+    unfold Hebrew.backLoop
+    have hm := monthsIn_eq yr
+    by_cases hc : ms + Hebrew.monthsIn yr ≤ 0
+    · rw [if_pos hc]
+      obtain ⟨a, b, e1, e2, e3, e4⟩ := ih (ms + Hebrew.monthsIn yr) (yr - 1) hc (by split at hm <;> omega)
+      refine ⟨a, b, e1, e2, e3, ?_⟩
+      have := heb_recur yr
+      have e5 : yr - 1 + 1 = yr := by omega
+      rw [e4, e5]; omega
+    · rw [if_neg hc]; exact ⟨ms, yr, rfl, h1, by omega, rfl⟩
+
+/-- the civil-month walk of `_add_months` after the cycle shift -/
+theorem walk_spec (y0 civ ms : Int) (hc : 1 ≤ civ ∧ civ ≤ Hebrew.monthsIn y0) (hm : -235 < ms ∧ ms < 235) :
+    ∃ Y C, Hebrew.walk y0 civ ms = .ok (Y, C) ∧ 1 ≤ C ∧ C ≤ Hebrew.monthsIn Y ∧
+      hebBefore Y + C - 1 = hebBefore y0 + civ - 1 + ms := by
+  have h13 := monthsIn_eq y0
+  unfold Hebrew.walk
+  by_cases hp : ms > 0
+  · rw [if_pos hp]
+    obtain ⟨a, b, e1, e2, e3, e4⟩ := fwdLoop_spec Hebrew.loopFuel (ms + (civ - 1)) y0 (by omega)
+      (by show _ < 12 * ((32 : Nat) : Int); split at h13 <;> omega)
+    rw [e1]
+    exact ⟨b, a + 1, rfl, by omega, by omega, by omega⟩
+  · rw [if_neg hp]
+    obtain ⟨a, b, e1, e2, e3, e4⟩ := backLoop_spec Hebrew.loopFuel (ms - (Hebrew.monthsIn y0 - civ)) y0 (by omega)
+      (by show -(12 * ((32 : Nat) : Int)) < _; split at h13 <;> omega)
+    rw [e1]
+    have r0 := heb_recur y0
+    have r1 := heb_recur b
+    exact ⟨b, Hebrew.monthsIn b + a, rfl, by omega, by omega, by omega⟩
+
+/-- civil ↦ calendar ↦ civil month number is the identity on the months of the year -/
+theorem toCivil_fromCivil (scr : Bool) (Y C : Int) (hC : 1 ≤ C ∧ C ≤ Hebrew.monthsIn Y) :
+    Hebrew.toCivil scr Y (Hebrew.fromCivil scr Y C) = C := by
+  unfold Hebrew.toCivil Hebrew.fromCivil
+  cases scr
+  · rfl
+  · simp only [if_true]
+    unfold Heb.scripturalToCivil Heb.civilToScriptural
+    unfold Hebrew.monthsIn at hC
+    cases hl : Heb.isLeap Y <;> simp only [hl, if_true, Bool.false_eq_true, if_false] at hC ⊢ <;>
+      (repeat' split) <;> omega
+
+/-- `_HebrewYearMonthDayCalculator._add_months`, in full: the position of the month along the civil order
+    (`hebBefore year + civil month − 1`, with 235 months per 19 years) moves by exactly `n` -/
+theorem addMonthsHebrew_spec (scr : Bool) (c : Calc) (y m d n : Int) (hn : n ≠ 0)
+    (hb : -decBound < n ∧ n < decBound)
+    (hc : 1 ≤ Hebrew.toCivil scr y m ∧ Hebrew.toCivil scr y m ≤ Hebrew.monthsIn y) :
+    ∃ Y C, 1 ≤ C ∧ C ≤ Hebrew.monthsIn Y ∧
+      hebBefore Y + C - 1 = hebBefore y + Hebrew.toCivil scr y m - 1 + n ∧
+      Hebrew.toCivil scr Y (Hebrew.fromCivil scr Y C) = C ∧
+      (c.minYear ≤ Y ∧ Y ≤ c.maxYear → Hebrew.addMonths scr c (y, m, d) n =
+        .ok (Y, Hebrew.fromCivil scr Y C, min (c.dim Y (Hebrew.fromCivil scr Y C)) d)) ∧
+      (¬ (c.minYear ≤ Y ∧ Y ≤ c.maxYear) → Hebrew.addMonths scr c (y, m, d) n = .error .overflowError) := by
+  have hcyc := heb_cycle y (Int.tdiv n 235)
+  have hr : -235 < csharpMod n 235 ∧ csharpMod n 235 < 235 ∧ n = 235 * Int.tdiv n 235 + csharpMod n 235 := by
+    simp (disch := decide) only [csharpMod_pos, tdiv_pos]
+    repeat' split
+    all_goals omega
+  obtain ⟨Y, C, w1, w2, w3, w4⟩ := walk_spec (y + Int.tdiv n 235 * 19) (Hebrew.toCivil scr y m) (csharpMod n 235)
+    (by rw [hcyc.2]; exact hc) ⟨hr.1, hr.2.1⟩
+  refine ⟨Y, C, w2, w3, by rw [w4, hcyc.1]; omega, toCivil_fromCivil scr Y C ⟨w2, w3⟩, ?_, ?_⟩
+  all_goals
+    intro hY
+    unfold Hebrew.addMonths
+    rw [if_neg hn]
+    rw [pyTdiv_ok n 235 (by decide) hb.1 hb.2 (by decide) (by decide)]
+    dsimp only
+    rw [w1]
+    dsimp only
+    unfold rangeOrOverflow
+  · rw [if_neg (by omega)]
+  · rw [if_pos (by omega)]
+
 end Pyoda.C09
